@@ -135,11 +135,17 @@ func muxBody(name string, seed int64) Body {
 func Bodies(seed int64) []Body {
 	ss := checks.StandardStreams(seed)
 	big := checks.BigPayloadStream(seed)
+	pesFull, zoo := checks.RetainedSlicesStreams(seed)
+	afv := checks.AFVarietyStream(seed)
 	return []Body{
 		demuxDataBody("demux-data:"+ss[0].Name, ss[0].Bytes),
 		demuxDataBody("demux-data:"+ss[1].Name, ss[1].Bytes),
 		muxBody("mux", seed),
 		demuxDataBody("demux-data:big-payloads", big),
 		demuxPacketBody("demux-packets:"+ss[0].Name, ss[0].Bytes),
+		demuxDataBody("demux-data:pes-full-headers", pesFull),
+		demuxDataBody("demux-data:descriptor-zoo", zoo),
+		demuxPacketBody("demux-packets:af-variety", afv),
+		demuxDataBody("demux-data:af-variety", afv),
 	}
 }
